@@ -4,6 +4,10 @@
 (*      maximise  -c.x   s.t.  l <= x <= u,  rows by class, booleans       *)
 (* A program p: n, c, l, u (integer sequences), rows: sequence of          *)
 (* [a: Seq(Int), b: Int, cls: "U"|"L"|"S"|"N"], bools: Seq(BOOLEAN).       *)
+(* Optional field den: Seq(Nat \ {0}) -- the bounds of variable j are the   *)
+(* rationals l[j]/den[j], u[j]/den[j] (only boolean variables get          *)
+(* den # 1: a boolean with bounds [1/2, 1] must be 1, with [0, 7/10] must  *)
+(* be 0, with [3/10, 3/10] has no value at all).                           *)
 (* Row classes: U: a.x <= b, L: a.x >= b, S and N: a.x = b.                 *)
 (*                                                                         *)
 (* The optimiser is a system with three possible responses; each is an     *)
@@ -31,14 +35,19 @@ Abs(x) == IF x < 0 THEN -x ELSE x
 RECURSIVE Dot(_, _)
 Dot(a, x) == IF a = <<>> THEN 0 ELSE Head(a) * Head(x) + Dot(Tail(a), Tail(x))
 
+Den(p, k) == IF "den" \in DOMAIN p THEN p.den[k] ELSE 1
+FloorQ(a, d) == a \div d                     \* TLA+ \div rounds towards minus infinity (d > 0)
+CeilQ(a, d) == -((-a) \div d)
 \* ---- exact semantics on the lattice
 RowOK(r, y) == LET v == Dot(r.a, y) IN
   CASE r.cls = "U" -> v <= r.b [] r.cls = "L" -> v >= r.b [] r.cls \in {"S", "N"} -> v = r.b
 RECURSIVE Points(_, _)
 Points(p, k) ==      \* all integer points of the box restricted to coordinates 1..k, booleans within {0,1}
   IF k = 0 THEN { <<>> }
-  ELSE LET lo == IF p.bools[k] /\ p.l[k] < 0 THEN 0 ELSE p.l[k]
-           hi == IF p.bools[k] /\ p.u[k] > 1 THEN 1 ELSE p.u[k]
+  ELSE LET lk == CeilQ(p.l[k], Den(p, k))       \* smallest / largest integer within the (rational) bounds
+           uk == FloorQ(p.u[k], Den(p, k))
+           lo == IF p.bools[k] /\ lk < 0 THEN 0 ELSE lk
+           hi == IF p.bools[k] /\ uk > 1 THEN 1 ELSE uk
        IN { Append(y, v) : y \in Points(p, k - 1), v \in lo..hi }
 Feasible(p) == { y \in Points(p, p.n) : \A i \in 1..Len(p.rows) : RowOK(p.rows[i], y) }
 Value(p, y) == -Dot(p.c, y)
@@ -52,7 +61,7 @@ SolutionClause(p, K, tol, vtol, x, v) ==
                     CASE r.cls = "U" -> lhs > r.b * K + rowtol(r)
                       [] r.cls = "L" -> lhs < r.b * K - rowtol(r)
                       [] r.cls \in {"S", "N"} -> Abs(lhs - r.b * K) > rowtol(r) }
-  IN IF \E j \in 1..p.n : x[j] < p.l[j] * K - tol \/ x[j] > p.u[j] * K + tol THEN "bound"
+  IN IF \E j \in 1..p.n : x[j] * Den(p, j) < p.l[j] * K - tol * Den(p, j) \/ x[j] * Den(p, j) > p.u[j] * K + tol * Den(p, j) THEN "bound"
      ELSE IF badrow # {} THEN "row_" \o p.rows[CHOOSE i \in badrow : TRUE].cls
      ELSE IF \E j \in 1..p.n : p.bools[j] /\ Abs(x[j]) > tol /\ Abs(x[j] - K) > tol THEN "boolean"
      ELSE IF Abs(v + Dot(p.c, x)) > vtol THEN "value_is_not_minus_cx"
